@@ -34,8 +34,10 @@ def gen_cases(ctx, n):
         r = ctx.rng.random()
         if r < 0.55:
             cases.append({'ops': G.history_program(ctx.rng)})
-        elif r < 0.8:
+        elif r < 0.72:
             cases.append({'ops': G.rand_program(ctx.rng, ctx.rng.randint(3, 10))})
+        elif r < 0.8:
+            cases.append({'ops': G.cancel_program(ctx.rng)})
         elif r < 0.84:
             ks = ctx.rng.sample(LABELS, ctx.rng.randint(0, 6))
             cases.append({'dict': 'metadata', 'entries': [[k, ctx.rng.choice([0, 1, 24, 2**32, -1, -2**63])] for k in ks]})
@@ -87,7 +89,7 @@ def render(part):
     for i, c, r in part:
         if 'dict' in c:
             kvs = G.clist(dict_kvs(c))
-            dicts.append(f'({i}%nat, ({kvs}, {G.clist([G.chx(bytes.fromhex(r[x])) for x in ("cbor", "cbor2", "rt")])}))')
+            dicts.append(f'({i}%nat, ({kvs}, {G.clist([G.chx(bytes.fromhex(r[x])) for x in ("cbor", "cbor2", "rt", "cbor3", "cbor4")])}))')
         else:
             cb = G.clist([G.chx(bytes.fromhex(x)) for x in r['cbor']])
             rt = 'None'
